@@ -515,6 +515,46 @@ def k1_domain(hist):
     return p < 5000 and toyinfo(p, a % p, b % p)["tt"] or p == 0xDB7C2ABF62E35E668076BEAD208B
 
 
+def k1_structural(w, bad):
+    """(a) of the K1 classification: the curve has a point of order 2 AND an operand, the expected or observed result of
+    the failing step has y = 0 (mod p), or - for operations that compute multiples / partial sums on the way - an operand
+    generates a subgroup of even order (an intermediate then has y = 0)."""
+    h = w.hist
+    if not k1_domain(h):
+        return False
+    p = h["curve"][0]
+    cv = w.cv
+    pts = []
+    op = bad.get("op")
+    if op:
+        for idx in REFPOS.get(op[0], []):
+            if idx < len(op) and op[idx] != "inf" and isinstance(op[idx], int) and op[idx] < len(w.vals):
+                v = w.vals[op[idx]][1]
+                if isinstance(v, tuple) and len(v) == 2:
+                    pts.append(v)
+    for k in ("got", "expected"):
+        v = bad.get(k)
+        if isinstance(v, (tuple, list)) and len(v) == 2 and all(isinstance(t, int) for t in v):
+            pts.append(tuple(v))
+    if not op:
+        # a live object changed: its expected value is the operand
+        for i in w.live():
+            v = w.vals[i][1]
+            if isinstance(v, tuple) and len(v) == 2 and all(isinstance(t, int) for t in v):
+                pts.append(v)
+    if any(P[1] % p == 0 for P in pts):
+        return True
+    multi = op is None or op[0] in ("mul", "muladd", "dbl", "add", "keyverify", "sksign", "mkskey", "mkkey", "keyprecompute", "toaff")
+    if multi and p < 5000:
+        for P in pts:
+            try:
+                if R.on_curve(cv, P) and R.order_of(cv, P) % 2 == 0:
+                    return True
+            except Exception:
+                pass
+    return False
+
+
 def init_objects(rng, cvspec, named=None):
     """generator first (pool[0]); then points in assorted representations"""
     p, a, b, G, n = cvspec
@@ -739,6 +779,21 @@ def directed_histories():
                       ["add", 2, 3], ["add", 3, 2], ["add", 3, 4], ["add", 3, "inf"], ["add", "inf", 3], ["mul", 3, 5], ["dbl", 3], ["muladd", 0, 7, 3, 9],
                       ["eq", 0, 3], ["eq", 3, 1], ["eq", 2, 3], ["x", 3], ["pickle", 3], ["raw", 3], ["eq", 1, 0]]))
         out.append(H([["muladd", 0, 3, 0, 4], ["raw", 0], ["muladd", 1, 2, 1, 3], ["raw", 1], ["muladd", 1, 1, 2, n], ["muladd", 1, n, 1, 1], ["muladd", 0, 1, 1, 0]]))
+    # curves with a point T of order 2 (y = 0): what the unchanged code gets RIGHT there must stay right (legacy T + T is
+    # INFINITY, T == T, -T == T, T + Q and Q + T for legacy Q), next to what K1 describes (anything through PointJacobi, legacy
+    # double / multiples).  Each step is a history of its own so that every one is judged.
+    for (p, a, b, G, n) in TOY_2TORS:
+        cv = (p, a, b)
+        pts = toyinfo(p, a, b)["pts"]
+        T = next(P for P in pts if P[1] == 0)
+        Q = next(P for P in pts if P[1] != 0 and P[0] != T[0])
+        init = [["J", G[0], G[1], 1, n, 1], ["A", T[0], T[1], None], ["A", Q[0], Q[1], None], ["J", T[0] * 4 % p, 0, 2, None, 0], ["A", T[0], T[1], None]]
+        H = lambda ops: {"curve": [p, a, b], "named": None, "n": n, "init": init, "ops": ops}   # noqa
+        for ops in ([["add", 1, 1]], [["add", 1, 4]], [["eq", 1, 4]], [["eq", 1, 1]], [["add", 1, 2]], [["add", 2, 1]], [["neg", 1], ["eq", 5, 1]],
+                    [["add", 1, "inf"]], [["add", "inf", 1]], [["x", 1]], [["y", 1]], [["pickle", 1], ["eq", 5, 1], ["add", 5, 1]],
+                    [["dbl", 1]], [["mul", 1, 2]], [["mul", 1, 3]], [["add", 3, 1]], [["add", 1, 3]], [["eq", 3, 1]], [["eq", 3, "inf"]],
+                    [["mul", 3, 3]], [["toaff", 3]], [["muladd", 0, 2, 1, 1]], [["add", 2, 2]], [["mul", 2, 2]]):
+            out.append(H(ops))
     return out
 
 
@@ -869,11 +924,21 @@ def correspond(ctx):
         c.add(w.line(), lambda out=out: out, tag + ("" if w.mutated else "-nomutation"))
         for op in h["ops"][:w.steps]:
             ctx.hist("c19.op", op[0])
-    c.run()
+    dis = c.run()
+    # histories on which MODEL and implementation disagree (the model reproduces K1 faithfully: a failure may be filed under
+    # K1 only if the model gives the implementation's answers on that very history)
+    ctx._c19_dis = set(d["line"] for d in dis)
 
 
 def search(ctx):
     walks = getattr(ctx, "_c19", None) or all_walks(ctx)
+    dis = getattr(ctx, "_c19_dis", None)
+    if dis is None:
+        c = Corr(ctx, "object-history")
+        for (h, w, tag) in walks:
+            out = " ".join(w.outs)
+            c.add(w.line(), lambda out=out: out, tag)
+        dis = set(d["line"] for d in c.run())
     n = 0
     nviol = 0
     for (h, w, tag) in walks:
@@ -885,9 +950,14 @@ def search(ctx):
         bad = w2.bad or w.bad
         rec = {"input": small, "observed": {k: v for k, v in bad.items() if k != "why"}, "expected": bad["why"],
                "original_length": len(h["ops"]), "shrunk_length": len(small["ops"])}
-        if k1_domain(h):
+        # K1 only if (a) the structural predicate holds and (b) the model agrees with the implementation on this history
+        if k1_structural(w, w.bad) and w.line() not in dis:
             rec["known"] = "K1"
         else:
+            if k1_domain(h):
+                rec["note"] = ("on a curve with a point of order 2, but not filed under K1: " +
+                               ("model and implementation disagree on this history" if w.line() in dis else
+                                "no operand/intermediate/result with y = 0"))
             nviol += 1
         ctx.violation(rec)
         if nviol >= 3:
